@@ -6,7 +6,7 @@ import copy
 import random
 
 import codec
-from lockstep import real_simulate, Recorder, Crash
+from lockstep import real_simulate, Recorder, Crash, CrashBase
 from real import build, extract_model, snapshot, Index
 
 
@@ -30,7 +30,7 @@ def apply_real(project, op, recorder=None):
             project.insert_absence_time_list(list(op["steps"]))
         else:
             raise ValueError("unknown op %r" % k)
-    except Crash as e:
+    except (Crash, CrashBase) as e:
         return e
     except Exception as e:
         return e
